@@ -34,12 +34,13 @@ LEVEL = {
          "V9/IPFIX inputs are structures constrained to the shape the decoder layers are shown to produce"),
  "C14": ("bounded model checking: every cut point of V5/V7 packets is an error; V9 flowset / IPFIX message whose declared length exceeds the buffer is an error before anything is cached; W-level: the error is last and carries the truncated packet from its version field",
          "V5/V7 <= 1 record for the all-cut-points harness; V9/IPFIX truncation per id class"),
+ "C15": ("bounded model checking with an accounting model of the Rust global allocator (bytes requested, number of requests, largest request): for short buffers whose count / length fields announce far more than is present (V5/V7 count and field-kernel declared length: every 16-bit value; V9/IPFIX field counts, scope/option lengths, flowset and message lengths: extreme values), the largest single heap request is <= 64 KiB, the total requested is <= 64 KiB + 8 x bytes present + 512, and every loop exits within its unwinding bound. ONLY the clause 'no count or length field causes allocation or work for bytes that are not present' is decided",
+         "not decided: quadratic growth with the number of packets/sets/records and the multiplicative inflation by zero-length fields (both need sizes far beyond the bounds CBMC reaches), V9 header.count (run did not finish); deallocation is not credited"),
  "C17": ("the harness crate is rebuilt with default-features = false (compile clause decided by rustc); kernels other than Unknown are checked against the same reference as the default build, the Unknown kernel never decodes, and V9/IPFIX data under a template with an unknown field yields no decoded data",
          "identity with the default build is by passing the same reference model in both configurations, within the kernel/layer bounds"),
 }
 
 NA = [
- {"property_id": "C15", "reason": "cost (heap bytes requested, work done) is not observable in a CBMC model without instrumenting the allocator, and the sizes CBMC can reach (<= 3 records/packets) cannot separate linear from quadratic growth; a solver verdict there would not decide the stated property"},
  {"property_id": "C16", "reason": "the deciding code is serde_json/itoa/ryu text generation plus a JSON reader for the oracle (number/float formatting is the worst case for bit-blasting) and cross-instance determinism depends on RandomState seeds that the container model abstracts away; not reachable with this technique"},
 ]
 
